@@ -55,6 +55,30 @@ def run(ctx):
                    'state write during replay is%s dominated by the true edge of verify_wal_entry%s' % (
                        '' if ok else ' NOT', ' on the record it applies' if same else (' (but applies a different record)' if ok else '')), entry=b.root)
     ctx.floor('VERIFY-GATE', 3)
+    # nothing read from a decoded record steers recovery before that record's tag was checked: every branch whose
+    # condition reads a WalEntry field lies on the true edge of verify_wal_entry (a field of an unverified record is
+    # attacker-/damage-controlled, so skipping or routing on it drops or misplaces intact records silently)
+    nvf = 0
+    for b in replay:
+        seen_sw = set()
+        for nnode, e in sorted(b.edge_nodes().items()):
+            sw = e[0]
+            if sw in seen_sw:
+                continue
+            c = F.edge_cond(b, e)
+            exprs = [x for x in (getattr(c, 'expr', None), getattr(c, 'lhs', None), getattr(c, 'rhs', None)) if x is not None]
+            flds = sorted(set(x.b.rsplit('::', 1)[-1] for ex in exprs for x in ex.walk()
+                              if x.k == 'field' and isinstance(x.b, str) and x.b.startswith(ENTRY + '::')))
+            if not flds:
+                continue
+            seen_sw.add(sw)
+            nvf += 1
+            ver = [cd for cd in F.dominating_conds(b, sw) if cd.kind == 'bool' and cd.truth and cd.expr.k == 'call' and cd.expr.a.endswith('::verify_wal_entry')]
+            ctx.ob('VERIFY-FIRST', 'branch-on:%s#%d@%s' % ('+'.join(flds), sum(1 for o in ctx.obls if o.rule == 'VERIFY-FIRST'), b.id), bool(ver),
+                   b.where(b.line_of_block(sw)),
+                   'branch on record field(s) %s %s' % (', '.join(flds), 'after the record was verified' if ver else
+                                                         'BEFORE verify_wal_entry: an unverified field decides what recovery does with the record'), entry=b.root)
+    ctx.floor('VERIFY-FIRST', 3)
     # verify_wal_entry accepts only on equality with a recomputed tag
     vb = prog.body(MGRT + '::verify_wal_entry')
     eq = vb.calls(r'PartialEq.*>::eq$')
